@@ -26,7 +26,6 @@ THEOREMS = [
     "C16_contain_blank",
     "C16_contain_step",
     "C16_contain",
-    "C16_contain_refuted",
     "C16_reverse_surface",
     "C16_reverse_surface_exact",
     "C16_reverse_surface_geometry",
@@ -49,6 +48,17 @@ THEOREMS = [
     "C16_children",
     "C16_children_geometry",
     "C16_children_conflict",
+    "C16_reach_blank",
+    "C16_init",
+    "C16_step",
+    "C16_reachable",
+    "C16_main",
+    "C16_exact_surface",
+    "C16_exact_surface_geometry",
+    "C16_exact_material",
+    "C16_exact_universe",
+    "C16_exact_complement",
+    "C16_exact_partition",
 ]
 
 KINDS = links.KINDS
@@ -616,7 +626,7 @@ def count_case(chk, case, ri):
 def run(chk):
     chk.rule = (
         "cases are generated MCNP problems (2-4 cells with shared surfaces, complements, shared materials, universes "
-        "and fills; 3-8 pool surfaces incl. from-scratch ones, clones (== but distinct) and number colliders) read "
+        "and fills; 3-8 pool surfaces incl. from-scratch ones, equal copies (== but distinct objects) and number colliders) read "
         "with montepy.read_input, followed by an edit script of 1-10 steps (geometry assignment, &=, |=, in-place &=/|= "
         "on an alias, divider / left / right replacement, material, universe, claim, fill, renumbering, collection "
         "append/remove, materials/cells setters, add_cell_children_to_problem, a final remove_duplicate_surfaces). "
